@@ -243,7 +243,12 @@ func (selector *CoinSelector) SortedSearch() ([]*Utxo, uint64, uint64) {
 				pass = 1
 			}
 		case 1:
-			feeReplaced, lr := selector.getLossRatio(append(selection[:len(selection)-1:cap(selection)-1], u))
+			// build the trial selection in a fresh slice: appending to a re-slice of selection would
+			// overwrite selection's last element before sumTemp is computed from it
+			trial := make([]*Utxo, len(selection))
+			copy(trial, selection)
+			trial[len(trial)-1] = u
+			feeReplaced, lr := selector.getLossRatio(trial)
 			if sumTemp := sum - selection[len(selection)-1].Value + u.Value; (sumTemp == selector.target ||
 				sumTemp >= selector.target+selector.mc) && lr < selector.maxP {
 				fee, sum = feeReplaced, sumTemp
